@@ -133,6 +133,7 @@ def run_op(label, thunk, **info):
     """Client boundary: OP_BEGIN before invoking, OP_END after the reply; all gates opened afterwards."""
     import time
 
+    B.new_epoch()
     s0 = B.ev("OP_BEGIN", op=label, **info)
     me = threading.get_ident()
     CURRENT_OPS[me] = (label, time.monotonic())
